@@ -206,7 +206,14 @@ func CheckTableNamesMatch(parsedQuery sqlparser.Statement, setOfTables map[strin
 		atLeastOneTableNameMatch, allTableNamesMatch = checkTableExprsMatch(query.From, setOfTables)
 		break
 	case *sqlparser.Insert:
-		if setOfTables[query.Table.Name.String()] {
+		// the table as the statement names it: with its schema / database qualifier when it spells one, as for the
+		// tables of a SELECT. A rule for "accounts" is not a rule for "backup.accounts", and a rule for "backup.accounts"
+		// has to apply to "INSERT INTO backup.accounts"
+		tableName := query.Table.Name.String()
+		if !query.Table.Qualifier.IsEmpty() {
+			tableName = query.Table.Qualifier.String() + "." + tableName
+		}
+		if setOfTables[tableName] {
 			atLeastOneTableNameMatch = true
 			allTableNamesMatch = true
 		} else {
